@@ -359,6 +359,14 @@ Proof.
   destruct newmap; intros H; injection H as _ <- _; cbn; split; reflexivity.
 Qed.
 
+Lemma import_lookup_frame retries a c r count res a' r' :
+  import_lookup retries a c r count = (res, a', r') -> clocks (a_st a') = clocks (a_st a) /\ out (a_st a') = out (a_st a).
+Proof.
+  unfold import_lookup. destruct (Nat.eqb _ count); [intros H; injection H as _ <- _; split; reflexivity|].
+  destruct (refresh_count retries (a_ans a) count _) as [[ok rest] newmap].
+  destruct newmap; intros H; injection H as _ <- _; cbn; split; reflexivity.
+Qed.
+
 Lemma append_frame a r e : a_st (append a r e) = a_st a.
 Proof. unfold append. destruct (negb _); [reflexivity|]. destruct (a_fwd a); reflexivity. Qed.
 
@@ -366,6 +374,7 @@ Ltac frame_tac :=
   repeat match goal with
          | |- context [append ?a ?r ?e] => rewrite (append_frame a r e)
          | H : part_lookup _ _ _ _ _ _ = _ |- _ => apply part_lookup_frame in H; destruct H as [? ?]
+         | H : import_lookup _ _ _ _ _ = _ |- _ => apply import_lookup_frame in H; destruct H as [? ?]
          end; cbn [a_st clocks out upd_state] in *; try (split; congruence); try (split; reflexivity).
 
 Ltac dm := match goal with
@@ -402,6 +411,14 @@ Proof.
   destruct newmap; intros H; injection H as _ <- _; cbn; repeat split.
 Qed.
 
+Lemma import_lookup_out retries a c r count res a' r' :
+  import_lookup retries a c r count = (res, a', r') -> a_out a' = a_out a /\ a_fwd a' = a_fwd a /\ h_tgt (a_h a') = h_tgt (a_h a).
+Proof.
+  unfold import_lookup. destruct (Nat.eqb _ count); [intros H; injection H as _ <- _; repeat split|].
+  destruct (refresh_count retries (a_ans a) count _) as [[ok rest] newmap].
+  destruct newmap; intros H; injection H as _ <- _; cbn; repeat split.
+Qed.
+
 Lemma append_out a r e : a_out (append a r e) = a_out a \/ a_out (append a r e) = (a_out a ++ [e])%list.
 Proof. unfold append. destruct (negb _); [right; reflexivity|]. destruct (a_fwd a); [left|right]; reflexivity. Qed.
 
@@ -413,7 +430,8 @@ Lemma one_msg_out retries a m :
 Proof.
   unfold one_msg, grows_by.
   repeat dm; try exact I; try (left; reflexivity);
-  repeat match goal with H : part_lookup _ _ _ _ _ _ = _ |- _ => apply part_lookup_out in H; destruct H as [? [? ?]] end;
+  repeat match goal with H : part_lookup _ _ _ _ _ _ = _ |- _ => apply part_lookup_out in H; destruct H as [? [? ?]]
+                    | H : import_lookup _ _ _ _ _ = _ |- _ => apply import_lookup_out in H; destruct H as [? [? ?]] end;
   cbn [a_out] in *.
   all: match goal with
   | |- context [append ?a ?r ?e] => destruct (append_out a r e) as [Ha|Ha]; rewrite Ha; cbn [a_out] in *
